@@ -903,7 +903,11 @@ func scenarios() []scenario {
 	var out []scenario
 	for _, f := range fams {
 		p1, p2, bl, g := thSpec{thPut, f.tx1}, thSpec{thPut, f.tx2}, thSpec{thBlock, f.blk}, thSpec{thGet, 0}
-		for _, ts := range [][]thSpec{{p1, p2, bl}, {p1, p2, g}, {p1, bl, g}, {p2, bl, g}} {
+		sets := [][]thSpec{{p1, p2, bl}, {p1, p2, g}, {p1, bl, g}, {p2, bl, g}}
+		if f.tx1 == f.tx2 {
+			sets = sets[:3] // the fourth would repeat the third
+		}
+		for _, ts := range sets {
 			out = append(out, scenario{name: f.name, setup: f.setup, threads: ts})
 			if f.twoAcc {
 				out = append(out, scenario{name: f.name + "/map-descending", setup: f.setup, threads: ts, desc: true})
@@ -1408,7 +1412,7 @@ func main() {
 			"(put of 16 txs = 2 accounts x nonce 1..4 x 2 hashes; removeTx of each; block advancing A|B by 1|2; reorganisation rewinding A|B by 1, optionally advancing the other; evict with A|B|none aged; unconfirmed([A,B])) " +
 			"on the real MemPool over a real state DB; each transition = the word replayed on a fresh pool; after every transition the whole pool (lists, ready prefixes, hash index, counters) and every query " +
 			"(get, listHash, exist x16, Size, Statistics, getUnconfirmed x2) is compared with a plain-Go model; states are merged by a canonical rendering of the pool's complete bookkeeping + told state nonces. " +
-			"SCHED: 40 scenarios (8 collision families x 4 choices of 3 threads out of put(tx1), put(tx2), block/reorg notification, get; the two-account families in both walk orders of the account map), every schedule with <= 2 (thorough 3) preemptions over the scheduling points " +
+			"SCHED: 39 scenarios (8 collision families x the 4 (3 when tx1 = tx2) choices of 3 threads out of put(tx1), put(tx2), block/reorg notification, get; the two-account families in both walk orders of the account map), every schedule with <= 2 (thorough 3) preemptions over the scheduling points " +
 			"= every sync.Mutex/RWMutex/Map/atomic operation of packages mempool and state/statedb (import rewrite to vsync); deadlock, panics, every mid-run get and the bookkeeping at quiescence are judged. " +
 			"states = SEQ distinct canonical pool states + SCHED distinct outcomes per scenario; transitions = SEQ transitions + SCHED scheduling steps; traces = executions of the real code (one per SEQ transition, one per schedule). " +
 			"distinct_nontrivial = distinct canonical pool states reached by SEQ (every one differs in pool content, counters or state nonces) + distinct observable outcomes (put answers, get results, final bookkeeping) per SCHED scenario.",
